@@ -54,6 +54,7 @@ from __future__ import unicode_literals
 import collections
 import itertools
 import os
+import time
 
 from mc.boot import HarnessError
 from mc.pool import pmap, ncpu
@@ -92,9 +93,12 @@ REDUCED = ('division-multiline', 'asi-restricted', 'regex-backtrack',
            'mismatched-close-paren', 'pending-hidden-comments',
            'comments-inside', 'string-continuation', 'unbalanced-at-eof')
 
-# thorough: every triple over these, each triple in a fresh process
-EXACT3 = ('regex-backtrack', 'lexer-error-line2', 'unbalanced-open-paren',
-          'pending-hidden-comments', 'comments-inside')
+# thorough: every triple over these (x flag), each in a fresh process
+EXACT3 = ('regex-backtrack', 'unbalanced-open-paren',
+          'pending-hidden-comments')
+# quick: second call of the pairs that get a fresh process each (the first
+# call ranges over the whole pool; thorough: all pairs)
+PROBES = ('division-multiline', 'regex-backtrack', 'comments-inside')
 
 # texts of <= 4 tokens (one of 5) for the schedule explorer: (text, flag)
 SCHED = [
@@ -110,6 +114,7 @@ SCHED = [
     ('if(a)/r/', False),     # implied block marker on the stack
     ('[,]', False),
 ]
+SCHED_THOROUGH_ONLY = (9,)
 # thorough: three threads
 TRIPLES = [
     (0, 3, 4), (0, 4, 6), (3, 4, 5), (4, 5, 6), (0, 0, 0), (3, 3, 3),
@@ -161,10 +166,11 @@ def first_call(op):
     return observe_call(lib(), op)
 
 
-def baselines(ops):
+def baselines(ops, twice=True):
+    """op -> observation of the op as the first call of a fresh process"""
     ops = list(ops)
     a = H.fresh_children(first_call, [(op,) for op in ops])
-    b = H.fresh_children(first_call, [(op,) for op in ops])
+    b = H.fresh_children(first_call, [(op,) for op in ops]) if twice else a
     base = {}
     for op, x, y in zip(ops, a, b):
         if x != y:
@@ -179,6 +185,8 @@ def kind(obs):
 
 
 def how(want, got):
+    """Coarse class of a deviation (signature component); the exception
+    types and texts go to the detail."""
     if want[0] == 'tree' and got[0] == 'tree':
         if want[1] != got[1]:
             import re
@@ -188,12 +196,14 @@ def how(want, got):
             return 'tree-differs'
         return 'hidden-attributes-differ'
     if want[0] == 'tree':
-        return 'tree-became-' + got[1]
+        return 'tree-became-error'
     if got[0] == 'tree':
-        return want[1] + '-became-tree'
-    if want[1] != got[1]:
-        return 'error-type-differs'
-    return 'error-text-differs'
+        return 'error-became-tree'
+    return 'error-differs'
+
+
+def kind2(obs):
+    return 'tree' if obs[0] == 'tree' else 'error'
 
 
 def brief(obs):
@@ -229,18 +239,29 @@ def debruijn(k, n):
 PLY_HOOKS = ('ply.yacc:_errok', 'ply.yacc:_token', 'ply.yacc:_restart')
 
 
-def state_class():
+PARSE_HOT = frozenset([
+    'calmjs.parse.asttypes', 'calmjs.parse.exceptions', 'calmjs.parse.factory',
+    'calmjs.parse.io', 'calmjs.parse.lexers', 'calmjs.parse.lexers.es5',
+    'calmjs.parse.lexers.tokens', 'calmjs.parse.parsers',
+    'calmjs.parse.parsers.es5', 'calmjs.parse.utils', 'calmjs.parse.walkers',
+])
+
+
+def state_class(full=False):
     """
     E4 fingerprint of the process-global state that a parse could read:
-    all globals / class attributes of calmjs.parse.* (ply table modules
-    excluded: pure data, compared at the start and end of a worker) and of
-    ply.lex / ply.yacc.  ply.yacc's deprecated global error hooks _errok /
-    _token / _restart (set around every p_error call, deleted afterwards -
-    unless p_error raises; never read by calmjs.parse) are abstracted to
-    None / set / absent.
+    all globals / class attributes of ply.lex, ply.yacc and of the
+    calmjs.parse modules whose code runs during parse() - after every call;
+    with full=True of every loaded calmjs.parse.* module including the ply
+    table modules - at the start and the end of a worker.  ply.yacc's
+    deprecated global error hooks _errok / _token / _restart (set around every
+    p_error call, deleted afterwards - unless p_error raises; never read by
+    calmjs.parse) are abstracted to None / set / absent.
     """
-    g = H.global_fp(skip=('lextab_', 'yacctab_'),
-                    extra=('ply.lex', 'ply.yacc'))
+    if full:
+        g = H.global_fp(extra=('ply.lex', 'ply.yacc'))
+    else:
+        g = H.global_fp(only=PARSE_HOT, extra=('ply.lex', 'ply.yacc'))
     return [(k, (v if v is None else 'set') if k in PLY_HOOKS else v)
             for k, v in g]
 
@@ -250,10 +271,8 @@ def violation(ops, base, calls, got, where):
     op = ops[calls[-1]]
     want = base[op]
     prev = [ops[i] for i in calls[:-1]]
-    sig = 'C15|history|%s|failing=%s|after=%s|flags=%s' % (
-        how(want, got), kind(want),
-        kind(base[prev[-1]]) if prev else 'nothing',
-        'same' if prev and prev[-1][1] == op[1] else 'differ')
+    sig = 'C15|history|%s|after=%s' % (
+        how(want, got), kind2(base[prev[-1]]) if prev else 'nothing')
     return (sig, {'calls': [list(o) for o in prev + [op]]},
             '%s: call %d (%s): first-call result %s; now %s' % (
                 where, len(calls), tag_of(op[0]), brief(want), brief(got)))
@@ -283,8 +302,10 @@ def exact_sequences(ops, base, seqs):
 def window_segment(ops, base, seg, order):
     """One worker: the calls of `seg` one after the other in this process.
     Returns (calls, suspects [(sig, pos, detail)], classes {digest: calls
-    started in that class}, class changes [(pos, key)])."""
+    started in that class}, class changes [(pos, key)], full fingerprint
+    digests at start and end)."""
     L = lib()
+    full0 = H.digest(state_class(full=True))
     ref = state_class()
     cls = H.digest(ref)
     classes = collections.Counter()
@@ -304,7 +325,8 @@ def window_segment(ops, base, seg, order):
                 changes.append((pos, H.first_difference(ref, now)))
             ref = now
             cls = H.digest(now)
-    return len(seg), suspects, dict(classes), changes
+    full1 = H.digest(state_class(full=True))
+    return len(seg), suspects, dict(classes), changes, (full0, full1)
 
 
 def confirm_suspect(ops, base, seg, pos, order):
@@ -330,32 +352,55 @@ def confirm_suspect(ops, base, seg, pos, order):
     return None
 
 
-def run_histories(rep, name, ops, order, exact_len, exact_ops=None):
-    base = baselines(ops)
+def cut_cycle(cyc, n, order):
+    """Cut the cyclic de Bruijn sequence into n segments (each extended by
+    order-1 calls so that no window is lost) such that segment k STARTS with
+    operation k: every operation is the first call of one worker process."""
+    m = len(cyc)
+    cuts = []
+    pos = 0
+    for k in range(n):
+        pos = max(pos, k * m // n)
+        while cyc[pos % m] != k:
+            pos += 1
+        cuts.append(pos)
+        pos += 1
+    segs = []
+    for k in range(n):
+        lo = cuts[k]
+        hi = cuts[k + 1] if k + 1 < n else cuts[0] + m
+        segs.append([cyc[i % m] for i in range(lo, hi + order - 1)])
+    return segs
+
+
+def run_histories(rep, name, ops, order, exact):
+    """exact: list of op-index sequences to run each in a fresh process"""
+    # (every op is run again as a first call by the exact sequences below,
+    # which is where nondeterminism between fresh processes would show)
+    base = baselines(ops, twice=False)
     n = len(ops)
 
-    # (a1) exact: every sequence of <= exact_len calls over `exact_ops`,
-    # each in its own fresh process
-    ex = list(range(n)) if exact_ops is None else [
-        ops.index(o) for o in exact_ops]
-    seqs = list(itertools.product(ex, repeat=exact_len))
-
+    # (a1) exact
     def work_exact(items, idx):
         return exact_sequences(ops, base, items)
     calls = 0
-    for c, recs in pmap(work_exact, seqs):
+    for c, recs in pmap(work_exact, exact):
         calls += c
         for sig, w, d in recs:
-            rep.bag.add(sig, w, d)
-    exact = sum(len(ex) ** k for k in range(1, exact_len + 1))
+            if len(w['calls']) == 1:
+                rep.harness_errors.append(
+                    'first call differs between two fresh processes: ' + d)
+            else:
+                rep.bag.add(sig, w, d)
+    exact_prefixes = set()
+    for q in exact:
+        for i in range(1, len(q) + 1):
+            exact_prefixes.add(tuple(q[:i]))
+    exact_prefixes.update((i,) for i in range(n))     # the baselines
 
-    # (a2) windows: every sequence of `order` calls occurs as a contiguous
-    # window of a de Bruijn sequence that is cut into one segment per worker
+    # (a2) windows
     cyc = debruijn(n, order)
-    lin = cyc + cyc[:order - 1]
-    nw = ncpu()
-    per = (len(cyc) + nw - 1) // nw
-    segs = [lin[lo:lo + per + order - 1] for lo in range(0, len(cyc), per)]
+    segs = cut_cycle(cyc, n, order)
 
     def work_windows(items, idx):
         return [window_segment(ops, base, seg, order) for seg in items]
@@ -363,15 +408,15 @@ def run_histories(rep, name, ops, order, exact_len, exact_ops=None):
     classes = collections.Counter()
     suspects = {}
     changes = []
-    results = pmap(work_windows, segs)
-    flat = []
+    fulls = set()
+    results = pmap(work_windows, segs, nworkers=len(segs))
     k = len(results)
-    for i in range(len(segs)):
-        flat.append(results[i % k][i // k])
-    for si, (c, sus, cl, ch) in enumerate(flat):
+    flat = [results[i % k][i // k] for i in range(len(segs))]
+    for si, (c, sus, cl, ch, full) in enumerate(flat):
         wcalls += c
         classes.update(cl)
         changes.extend(ch[:3])
+        fulls.update(full)
         for sig, pos, detail in sus:
             e = suspects.setdefault(sig, [0, []])
             e[0] += 1
@@ -393,19 +438,22 @@ def run_histories(rep, name, ops, order, exact_len, exact_ops=None):
                 'in a fresh process from any suffix of its worker\'s call '
                 'sequence' % (sig, cnt, cands[0][2]))
     rep.space('histories-' + name, operations=n,
-              exact_max_len=exact_len, exact_operations=len(ex),
-              exact_sequences_each_in_a_fresh_process=exact,
-              exact_calls=calls, window_len=order,
+              sequences_each_in_a_fresh_process=len(exact_prefixes),
+              exact_calls=calls + n, window_len=order,
               windows=len(cyc), window_calls=wcalls,
+              worker_processes=len(segs),
               global_state_classes=len(classes),
               calls_started_per_class=dict(classes),
-              first_class_changes=[list(c) for c in changes[:8]],
+              complete_fingerprints_at_worker_start_and_end=len(fulls),
+              first_class_changes=[list(c) for c in changes[:6]],
               first_call_kinds=dict(collections.Counter(
                   kind(o) for o in base.values())))
     rep.outcome(collections.Counter(
         'first-call:' + kind(o) for o in base.values()))
-    distinct = exact + len(cyc)
-    return distinct, distinct - n, calls + wcalls, len(classes)
+    distinct = len(exact_prefixes | set(
+        tuple(cyc[(i + j) % len(cyc)] for j in range(order))
+        for i in range(len(cyc))))
+    return distinct, distinct - n, calls + n + wcalls, len(classes)
 
 
 # ---------------------------------------------------------------------
@@ -448,11 +496,11 @@ def observe_results(L, results):
     return out
 
 
-def run_token_schedule(L, ops, chooser):
+def run_token_schedule(L, ops, chooser, crew=None):
     b = S.Baton(len(ops), chooser, horizon=400, timeout=60.0)
     _current[0] = b
     try:
-        results = b.run(bodies_for(L, ops))
+        results = b.run(bodies_for(L, ops), crew)
     finally:
         _current[0] = None
     return b.trace, (observe_results(L, results), list(b.events))
@@ -472,10 +520,8 @@ def judge(ops, base, obs, bag, witness, gran, rerun, errors):
         return
     for i in bad:
         want, got = base[ops[i]], obs[0][i]
-        others = sorted(set(kind(base[o]) for j, o in enumerate(ops)
-                            if j != i))
-        sig = 'C15|schedule|%s|%s|threads=%d|victim=%s|others=%s' % (
-            gran, how(want, got), len(ops), kind(want), '+'.join(others))
+        sig = 'C15|schedule|%s|%s|threads=%d' % (
+            gran, how(want, got), len(ops))
         bag.add(sig, witness,
                 'thread %d %r: sequential result %s; under this schedule %s'
                 % (i, ops[i][0], brief(want), brief(got)))
@@ -489,11 +535,16 @@ def token_block(base, items):
     errors = []
     n = 0
     switching = 0
+    crews = {}
     for idxs, root in items:
         ops = [SCHED[i] for i in idxs]
+        crew = crews.get(len(ops))
+        if crew is None:
+            # persistent threads of this worker process (which never forks)
+            crew = crews[len(ops)] = S.Crew(len(ops))
 
         def execute(chooser):
-            return run_token_schedule(L, ops, chooser)
+            return run_token_schedule(L, ops, chooser, crew)
         for choices, obs in S.explore_all(execute, root):
             n += 1
             # a schedule is non-trivial when some thread is resumed after
@@ -514,7 +565,7 @@ def token_block(base, items):
 
             def rerun(choices=choices):
                 return run_token_schedule(
-                    L, ops, S.PrefixChooser(choices))[1]
+                    L, ops, S.PrefixChooser(choices), crew)[1]
             judge(ops, base, obs, bag, witness, 'token', rerun, errors)
     return n, switching, bag, errors
 
@@ -605,13 +656,14 @@ def line_block(base, counts, items):
     errors = []
     n = 0
     warmed = set()
+    crew = S.Crew(2)
     for pair, first, lo, hi in items:
         ops = [SCHED[i] for i in pair]
         if (pair, first) not in warmed:
             for op in ops:
                 observe_call(L, op)
             _, cnt, _, _ = S.one_preemption(
-                bodies_for(L, ops), first, None, is_target)
+                bodies_for(L, ops), first, None, is_target, crew=crew)
             if cnt != counts[pair, first]:
                 errors.append(
                     'line count of %r differs between processes: %d / %d' % (
@@ -621,7 +673,7 @@ def line_block(base, counts, items):
 
         def once(k):
             results, cnt, hit, events = S.one_preemption(
-                bodies_for(L, ops), first, k, is_target)
+                bodies_for(L, ops), first, k, is_target, crew=crew)
             return (observe_results(L, results),
                     (hit, [e for e in events]))
         for k in range(lo, hi):
@@ -679,41 +731,75 @@ def run_line_level(rep, base):
 # ---------------------------------------------------------------------
 
 def run(tier, rep):
-    all_names = [n for n, _ in POOL]
+    all_ops = ops_of([n for n, _ in POOL])
+    nops = len(all_ops)
     states = nontriv = calls = 0
-    d, nt, c, ncls = run_histories(rep, 'full-pool', ops_of(all_names), 3, 2)
+    phases = collections.OrderedDict()
+    t0 = time.time()
+
+    def lap(name):
+        phases[name] = round(time.time() - t0 - sum(phases.values()), 1)
+    if tier == 'quick':
+        probes = [all_ops.index(o) for o in ops_of(PROBES) if o[1]] + \
+            [all_ops.index((dict(POOL)['division-multiline'], False))]
+        exact = [(a, b) for a in range(nops) for b in probes]
+    else:
+        exact = list(itertools.product(range(nops), repeat=2))
+    d, nt, c, ncls = run_histories(rep, 'full-pool', all_ops, 3, exact)
     states += d
     nontriv += nt
     calls += c
     rep.cov['global_state_classes_full_pool'] = ncls
+    lap('histories-full-pool')
     if tier == 'thorough':
+        red = ops_of(REDUCED)
+        e3 = [red.index(o) for o in ops_of(EXACT3)]
         d, nt, c, ncls = run_histories(
-            rep, 'reduced-pool', ops_of(REDUCED), 4, 3,
-            exact_ops=ops_of(EXACT3))
+            rep, 'reduced-pool', red, 4,
+            list(itertools.product(e3, repeat=3)))
         states += d
         nontriv += nt
         calls += c
         rep.cov['global_state_classes_reduced_pool'] = ncls
+        lap('histories-reduced-pool')
 
+    if len(rep.bag) or rep.harness_errors:
+        # The schedule explorer re-executes: it needs executions that start
+        # from equivalent states.  History effects have just been shown, so
+        # that precondition is refuted; the violations found stand.
+        rep.cov['exhaustive'] = False
+        rep.cov['caps_hit'].append(
+            'schedule exploration skipped: the history phase found '
+            'violations, executions in one process are not independent')
+        finish(rep, tier, states, nontriv, calls, phases)
+        return
     base = baselines(SCHED)
     rep.outcome(collections.Counter(
         'thread-text:' + kind(o) for o in base.values()))
-    pairs = list(itertools.combinations_with_replacement(
-        range(len(SCHED)), 2))
+    texts = [i for i in range(len(SCHED))
+             if tier == 'thorough' or i not in SCHED_THOROUGH_ONLY]
+    pairs = list(itertools.combinations_with_replacement(texts, 2))
     n2, sw2 = run_token_level(rep, base, pairs, 2)
     states += n2
     nontriv += sw2
     calls += 2 * n2
+    lap('schedules-token-2')
     if tier == 'thorough':
         n3, sw3 = run_token_level(rep, base, [tuple(t) for t in TRIPLES], 3)
         states += n3
         nontriv += sw3
         calls += 3 * n3
+        lap('schedules-token-3')
         nl = run_line_level(rep, base)
         states += nl
         nontriv += nl
         calls += 2 * nl
+        lap('schedules-line')
+    finish(rep, tier, states, nontriv, calls, phases)
 
+
+def finish(rep, tier, states, nontriv, calls, phases):
+    rep.cov['phase_wall_s'] = phases
     rep.cov['states'] = states
     rep.cov['evaluations'] = states
     rep.cov['distinct_nontrivial'] = nontriv
@@ -730,7 +816,9 @@ def run(tier, rep):
         'Non-trivial = a history of >= 2 calls, or a schedule in which a '
         'thread is resumed after another thread has run')
     rep.cov['bounds'] = {
-        'history_pool_ops': len(POOL) * 2, 'exact_len': 2, 'window_len': 3,
+        'history_pool_ops': len(POOL) * 2, 'window_len': 3,
+        'fresh_process_pairs': 'first call: whole pool; second call: ' + (
+            '4 probes' if tier == 'quick' else 'whole pool'),
         'reduced_pool_ops': len(REDUCED) * 2 if tier == 'thorough' else 0,
         'reduced_window_len': 4 if tier == 'thorough' else 0,
         'exact3_ops': len(EXACT3) * 2 if tier == 'thorough' else 0,
